@@ -45,13 +45,22 @@ def _fl(x):
 
 def _arg(kind_value, form=None):
     """case encoding of p_anc / mkrwt (None | scalar | list) -> python argument.
-    form "int": integer-valued arguments are passed as int64 arrays / Python ints; "np": numpy.float64 scalars"""
+    form "int": integer-valued arguments are passed as int64 arrays / Python ints; "np": numpy.float64 scalars;
+    "strided": arrays are non-contiguous views into a wider buffer; "readonly": arrays are not writeable (a
+    routine that works on its argument in place raises instead of silently changing the caller's data)"""
     if kind_value is None:
         return None
     if isinstance(kind_value, list):
         if form == "int" and all(Fraction(v).denominator == 1 for v in kind_value):
             return numpy.array([int(Fraction(v)) for v in kind_value], dtype="int64")
-        return numpy.array([_fl(v) for v in kind_value], dtype="float64")
+        a = numpy.array([_fl(v) for v in kind_value], dtype="float64")
+        if form == "strided":
+            big = numpy.full(3 * len(a) + 2, 0.5, dtype="float64")
+            big[1::3][:len(a)] = a
+            return big[1::3][:len(a)]
+        if form == "readonly":
+            a.setflags(write=False)
+        return a
     if form == "int" and Fraction(kind_value).denominator == 1:
         return int(Fraction(kind_value))
     if form == "np":
@@ -117,40 +126,77 @@ def _close(a, b, scale, rel=1e-9):
 
 def _summaries(c, symmetric, extras=False):
     """every summary of a coancestry object, both formats.  `extras`: the rarely used argument forms too
-    (negative / tuple axes, an explicit eigenvalue tolerance)"""
+    (negative / tuple axes, positional arguments, other spellings of the format string, an explicit accumulator
+    dtype, an explicit eigenvalue tolerance).  Every call is a read: the matrix held by the object is compared
+    with what it was before the first call after each of them (`touched` names the calls that changed it)."""
     out = {}
     n = c.mat.shape[0]
+    held = c.mat.copy()
+    touched = []
+
+    def read(name, value):
+        if not (c.mat.shape == held.shape and numpy.array_equal(c.mat, held, equal_nan=True)):
+            if len(touched) < 4:
+                touched.append(name)
+            if c.mat.shape == held.shape:
+                held[...] = c.mat                    # report every call once, not the same damage again
+        return value
+
     for fmt, key in (("coancestry", "co"), ("kinship", "kin")):
-        s = {"mat": canon.enc(c.mat_asformat(fmt))}
+        alt = "Coancestry" if fmt == "coancestry" else "KINSHIP"
+        s = {"mat": canon.enc(read(key + ".mat_asformat", c.mat_asformat(fmt)))}
         for name in ("max", "min", "mean"):
             f = getattr(c, name)
-            s[name] = {"all": canon.enc(f(format=fmt)), "cols": canon.enc(f(format=fmt, axis=0)),
-                       "rows": canon.enc(f(format=fmt, axis=1))}
+            s[name] = {"all": canon.enc(read(f"{key}.{name}", f(format=fmt))),
+                       "cols": canon.enc(read(f"{key}.{name}(axis=0)", f(format=fmt, axis=0))),
+                       "rows": canon.enc(read(f"{key}.{name}(axis=1)", f(format=fmt, axis=1)))}
             if extras:
                 s[name]["x"] = {"rows": canon.enc(f(format=fmt, axis=-1)), "cols": canon.enc(f(format=fmt, axis=-2)),
                                 "all": canon.enc(f(format=fmt, axis=(0, 1))),
-                                "all_rev": canon.enc(f(fmt, (1, 0)))}
-        s["max_inb"] = canon.enc(c.max_inbreeding(format=fmt))
+                                "all_rev": canon.enc(f(fmt, (1, 0))),
+                                "all_alt": canon.enc(f(alt)), "rows_alt": canon.enc(f(alt, 1)),
+                                "cols_alt": canon.enc(f(alt.swapcase(), axis=0))}
+                if name == "mean":
+                    s[name]["x"]["all_f64"] = canon.enc(f(fmt, None, numpy.float64))
+                    s[name]["x"]["cols_f64"] = canon.enc(f(format=fmt, axis=0, dtype="float64"))
+                    s[name]["x"]["rows_ld"] = canon.enc(numpy.asarray(f(fmt, 1, numpy.longdouble), dtype="float64"))
+                read(f"{key}.{name}(argument forms)", None)
+        s["max_inb"] = canon.enc(read(key + ".max_inbreeding", c.max_inbreeding(format=fmt)))
         try:
             s["inv"] = canon.enc(c.inverse(format=fmt)) if n <= INV_MAX_N else None
         except numpy.linalg.LinAlgError:
             s["inv"] = None
+        read(key + ".inverse", None)
         try:
             s["min_inb"] = canon.enc(c.min_inbreeding(format=fmt)) if n <= INV_MAX_N else None
         except numpy.linalg.LinAlgError:
             s["min_inb"] = None
+        read(key + ".min_inbreeding", None)
         # a singular / ill-conditioned matrix may give inf or nan here without LinAlgError; the Spec only
         # looks at these two on well-conditioned matrices, where "absent" counts as a failure
         for key2 in ("inv", "min_inb"):
             if not _finite(s[key2]):
                 s[key2] = None
                 s[key2 + "_nonfinite"] = True
+        if extras:
+            x = {"mat": canon.enc(c.mat_asformat(alt)), "max_inb": canon.enc(c.max_inbreeding(alt))}
+            for nm, call in (("inv", lambda: c.inverse(alt)), ("min_inb", lambda: c.min_inbreeding(alt))):
+                try:
+                    x[nm] = canon.enc(call()) if n <= INV_MAX_N else None
+                except numpy.linalg.LinAlgError:
+                    x[nm] = None
+                if not _finite(x[nm]):
+                    x[nm] = None
+            s["x_fmt"] = x
+            read(key + ".(format spelled " + alt + ")", None)
         if symmetric and fmt == "coancestry":
-            s["is_psd"] = bool(c.is_positive_semidefinite())
+            s["is_psd"] = bool(read("is_positive_semidefinite", c.is_positive_semidefinite()))
             if extras and n <= 12:
                 s["is_psd_tol"] = [{"tol": canon.enc(t), "ans": bool(c.is_positive_semidefinite(_fl(t)))}
                                    for t in PSD_TOLS]
+                read("is_positive_semidefinite(tol)", None)
         out[key] = s
+    out["touched"] = touched
     return out
 
 
@@ -160,19 +206,42 @@ PSD_TOLS = (Fraction(-1), Fraction(1, 2), Fraction(1, 2 ** 20))
 
 def _extras_bad(s):
     """the argument forms that must give what the plain forms give (two outputs of the implementation compared
-    with each other): names of the ones that differ"""
+    with each other): names of the ones that differ; plus the reading calls that changed the matrix held"""
     bad = []
+    sc = None
     for key in ("co", "kin"):
         for name in ("max", "min", "mean"):
             x = s[key][name].get("x")
             if x is None:
                 continue
+            if sc is None:
+                sc = _scale0(s["co"]["mat"])
             rel = 1e-12 if name == "mean" else 0.0
-            for form, plain in (("rows", "rows"), ("cols", "cols"), ("all", "all"), ("all_rev", "all")):
+            for form, plain in (("rows", "rows"), ("cols", "cols"), ("all", "all"), ("all_rev", "all"),
+                                ("all_alt", "all"), ("rows_alt", "rows"), ("cols_alt", "cols"),
+                                ("all_f64", "all"), ("cols_f64", "cols"), ("rows_ld", "rows")):
+                if form not in x:
+                    continue
                 a, b = x[form], s[key][name][plain]
-                same = (a == b) if rel == 0.0 else canon.close_enc(a, b, rel=rel, abs_=0.0)
+                if form == "rows_ld":                # another accumulator: rounding differs (row sums may cancel)
+                    same = canon.close_enc(a, b, rel=rel, abs_=1e-12 * sc)
+                elif form.endswith("_f64"):          # float64 is the default accumulator: the same computation
+                    same = a == b
+                else:
+                    same = (a == b) if rel == 0.0 else canon.close_enc(a, b, rel=rel, abs_=0.0)
                 if not same:
-                    bad.append(f"{key}.{name}.axis_form_{form}")
+                    bad.append(f"{key}.{name}.argument_form_{form}")
+        xf = s[key].get("x_fmt")
+        if xf is not None:
+            if xf["mat"] != s[key]["mat"]:
+                bad.append(f"{key}.mat_asformat.format_spelling")
+            if xf["max_inb"] != s[key]["max_inb"]:
+                bad.append(f"{key}.max_inbreeding.format_spelling")
+            for nm in ("inv", "min_inb"):
+                a, b = xf[nm], s[key][nm]
+                if (a is None) != (b is None) or (a is not None and not canon.close_enc(a, b, rel=1e-12, abs_=0.0)):
+                    bad.append(f"{key}.{nm}.format_spelling")
+    bad += [f"object_modified_by_reading_it({t})" for t in s.get("touched", [])]
     return bad
 
 
@@ -191,11 +260,156 @@ def _err_tag(e):
 _MODEL_TAG = {"shape": "value", "range": "value"}
 
 
+class ImplementationCrashed(RuntimeError):
+    """the interpreter running the implementation died (e.g. a segmentation fault inside LAPACK)"""
+
+
+class _Isolated:
+    """Runs the implementation calls of one batch of cases in a forked child process, so that a changed tree
+    that takes the interpreter down on a valid input (a segmentation fault inside a native routine, `os._exit`,
+    an abort) ends as a failing input with a replay instead of killing the check.  The child is forked from the
+    checking process (pybrops already imported, in-memory mutants already applied), receives the cases one at a
+    time over a pipe and returns the pickled observation (or the exception).  One child serves one batch: it is
+    dismissed when the batch is judged (`end_batch`) or when the set of patched attributes changed."""
+
+    def __init__(self, fn, fingerprint):
+        self.fn, self.fingerprint = fn, fingerprint
+        self.pid = None
+        self.print_ = None
+        self.to_child = self.from_child = None
+
+    def _spawn(self):
+        import os
+        import pickle
+        import signal
+        import sys
+        import traceback
+        sys.stdout.flush()
+        sys.stderr.flush()
+        c_r, p_w = os.pipe()
+        p_r, c_w = os.pipe()
+        pid = os.fork()
+        if pid == 0:                                   # ---- child
+            code = 0
+            try:
+                os.close(p_w)
+                os.close(p_r)
+                signal.setitimer(signal.ITIMER_REAL, 0)
+                signal.signal(signal.SIGALRM, signal.SIG_DFL)
+                fin, fout = os.fdopen(c_r, "rb"), os.fdopen(c_w, "wb")
+                while True:
+                    try:
+                        case = pickle.load(fin)
+                    except EOFError:
+                        break
+                    try:
+                        res = ("ok", self.fn(case))
+                    except Exception as e:
+                        tb = traceback.format_exc()
+                        try:
+                            pickle.dumps(e)
+                            res = ("exc", e, tb)
+                        except Exception:
+                            res = ("exc", RuntimeError(f"{type(e).__name__}: {e}"), tb)
+                    pickle.dump(res, fout, protocol=pickle.HIGHEST_PROTOCOL)
+                    fout.flush()
+            except BaseException:
+                code = 3
+            finally:
+                os._exit(code)
+        os.close(c_r)
+        os.close(c_w)
+        self.pid = pid
+        self.print_ = self.fingerprint()
+        self.to_child, self.from_child = os.fdopen(p_w, "wb"), os.fdopen(p_r, "rb")
+
+    def end_batch(self, kill=False):
+        import os
+        import signal
+        if self.pid is None:
+            return None
+        pid, self.pid = self.pid, None
+        for f in (self.to_child, self.from_child):
+            try:
+                f.close()
+            except Exception:
+                pass
+        if kill:
+            try:
+                os.kill(pid, signal.SIGKILL)
+            except OSError:
+                pass
+        try:
+            return os.waitpid(pid, 0)[1]
+        except OSError:
+            return None
+
+    CPU_LIMIT = 240.0          # seconds of CPU time the child may spend on ONE case (machine load does not count)
+    WALL_LIMIT = 3600.0        # backstop for a child that sleeps / blocks
+
+    def _child_cpu(self):
+        import os
+        try:
+            with open(f"/proc/{self.pid}/stat") as f:
+                parts = f.read().rsplit(")", 1)[1].split()
+            return (int(parts[11]) + int(parts[12])) / float(os.sysconf("SC_CLK_TCK"))
+        except Exception:
+            return None
+
+    def _wait_for_answer(self):
+        """block until the child has written (or died); a changed tree that loops forever on a valid input ends as
+        a failing input: the budget is the child's own CPU time, with a wall-clock backstop"""
+        import select
+        import time
+        fd = self.from_child.fileno()
+        start_cpu = self._child_cpu()
+        t0 = time.time()
+        while True:
+            r, _, _ = select.select([fd], [], [], 2.0)
+            if r:
+                return
+            cpu = self._child_cpu()
+            used = None if cpu is None or start_cpu is None else cpu - start_cpu
+            if (used is not None and used > self.CPU_LIMIT) or time.time() - t0 > self.WALL_LIMIT:
+                self.end_batch(kill=True)
+                raise TimeoutError(f"implementation did not return within {self.CPU_LIMIT:.0f} s of CPU time "
+                                   f"({time.time() - t0:.0f} s wall) on this input")
+
+    def call(self, case):
+        import pickle
+        import signal
+        if self.pid is not None and self.print_ != self.fingerprint():
+            self.end_batch()
+        if self.pid is None:
+            self._spawn()
+        try:
+            pickle.dump(case, self.to_child, protocol=pickle.HIGHEST_PROTOCOL)
+            self.to_child.flush()
+            self._wait_for_answer()
+            res = pickle.load(self.from_child)
+        except (EOFError, BrokenPipeError, pickle.UnpicklingError):
+            status = self.end_batch()
+            sig = status & 0x7f if status is not None else None
+            try:
+                name = signal.Signals(sig).name if sig else f"exit status {status}"
+            except ValueError:
+                name = f"signal {sig}"
+            raise ImplementationCrashed(f"the interpreter died inside the implementation ({name}) on this input")
+        except BaseException:                          # deadline of the core, KeyboardInterrupt: the child is stuck
+            self.end_batch(kill=True)
+            raise
+        if res[0] == "ok":
+            return res[1]
+        e = res[1]
+        e.child_traceback = res[2]
+        raise e
+
+
 class C13(Prop):
     PID = "C13"
     MODULE = "PybropsModel.Props.C13"
     N_QUICK = 300
-    N_THOROUGH = 2500
+    N_THOROUGH = 1500
     RULE = ("genotype matrices (phased 0/1 alleles or unphased counts, ploidy 1 or 2, 1-9 taxa x 1-16 markers plus "
             "the sizes 49/98/103/107, pairwise distinct taxa forced, >= 1 polymorphic marker where the formula "
             "needs it; C / Fortran / strided memory layout; a fully heterozygous and a partly inbred taxon) x "
@@ -219,6 +433,15 @@ class C13(Prop):
             "histories over SEVERAL objects computed from one genotype matrix (one of them re-ordered / sorted / "
             "grouped / sub-selected / written to, or the genotype matrix re-ordered or edited in place: every other "
             "object must be untouched, and a matrix computed afterwards must be that of the data then held); "
+            "round 4: taxa index lists written relative to the end (negative entries) for `select_taxa` / `reorder_taxa` / "
+            "`reorder` of the relationship matrix and of the genotype matrix; the genotype matrix sorted / grouped in "
+            "place between two computations; reference frequencies / weights that need all 53 bits of the double "
+            "(0.1, 0.3, 1/3, 0.7, 0.9, 2.3, 17.1), handed over as strided views or read-only arrays; every summary call "
+            "is checked to leave the matrix held untouched (Fortran-ordered and freshly re-ordered objects included), "
+            "format strings in other spellings, positional arguments, an explicit accumulator dtype for `mean`; "
+            "inverse / minimum inbreeding of well-conditioned matrices of 17-96 taxa (residual A.inv = I and an "
+            "independent linear solve); the implementation runs in a forked child so that an interpreter crash on a "
+            "valid input is reported with that input; "
             "and a stream of inputs that must be rejected.  Non-trivial = cmat case with >= 2 distinct taxa, >= 2 "
             "markers and a polymorphic marker, summary case with >= 2 taxa, a history that changes something")
     TRUSTED = [
@@ -230,12 +453,15 @@ class C13(Prop):
         "Float.sqrt of Lean = IEEE sqrt (only used by the op c13.yang_float)",
         "numpy element-wise arithmetic and outer products (the independent evaluation of the many-taxa cases, "
         "one marker at a time, integers where the formula allows it)",
+        "numpy.linalg.solve and matrix products (the residual / minimum-inbreeding reference of the `biginv` cases, "
+        "17-96 taxa, strictly diagonally dominant matrices)",
+        "os.fork / pickle: the implementation calls of a batch run in a forked child of the checking process",
     ]
     ASSUMPTIONS = [
         "allele frequencies / weights are dyadic rationals, genotypes small integers: float results within 1e-9 "
         "of the exact rational value",
         "inverse-based summaries are compared only where n·max|A|·max|A⁻¹| <= 1e4 (well conditioned) and n <= 16",
-        "taxa selections have distinct in-range indices (permutations and subsets)",
+        "taxa selections have distinct in-range indices (permutations and subsets), non-negative or end-relative",
         "sort / group histories use pairwise distinct taxon names, so the sorted order is determined by the keys",
         "apply_jitter is modelled with its oracle inputs recorded on the run: the uniform vectors (a RandomState "
         "clone seeded like the global stream) and the verdicts of is_positive_semidefinite (instance-level "
@@ -300,7 +526,66 @@ class C13(Prop):
             {"kind": "summ", "cls": "mol", "mat": [[f"3/{2 ** 1000}", f"1/{2 ** 1000}"],
                                                    [f"1/{2 ** 1000}", f"5/{2 ** 1000}"]], "taxa": None},
         ]
-        return self._fixed_corpus() + [self._big_case()] + many + grouped + edits + self._round3_corpus()
+        return (self._fixed_corpus() + [self._big_case()] + many + grouped + edits + self._round3_corpus()
+                + self._round4_corpus())
+
+    def _round4_corpus(self):
+        """round 4: end-relative (negative) taxa indices in every place that takes an index list; summaries of
+        Fortran-ordered / re-ordered objects read twice (a read must not change the object); singular matrices
+        in Fortran order (native solvers); format strings in other spellings; more taxa than the exact inverse
+        oracle handles"""
+        base = {"ploidy": 2, "phased": False, "n": 4, "m": 3,
+                "geno": [[0, 1, 2], [2, 2, 0], [1, 0, 1], [2, 1, 1]], "taxa": ["d", "b", "a", "c"],
+                "taxa_grp": [1, 0, 1, 0]}
+        out = []
+        for meth, p, w, sel in (("mol", None, None, [-3, -2, -1]), ("vr", "1/4", None, [0, -1]),
+                                ("yang", ["1/2", "1/4", "3/8"], None, [-1, 1, -4]),
+                                ("gw", [0, "1/2", 1], [1, 0, 2], [-2, 3, 0, -3])):
+            out.append({"kind": "cmat", "method": meth, "via": "class", **base, "p": p, "w": w, "sel": sel,
+                        "accforms": True})
+        out.append({"kind": "cmat", "method": "mol", "via": "factory", "ploidy": 1, "phased": True, "n": 3, "m": 3,
+                    "geno": [[[0, 1, 1], [1, 1, 0], [0, 0, 0]]], "taxa": ["a", "b", "c"], "taxa_grp": [3, 3, 1],
+                    "p": None, "w": None, "sel": [-1, -3]})
+        # arguments that need the full double mantissa; read-only and strided argument arrays
+        f = lambda x: canon.enc(Fraction(x))
+        out += [
+            {"kind": "cmat", "method": "gw", "via": "class", **base, "p": [f(0.3), f(0.1), f(0.7)], "w": f(0.1),
+             "sel": [2, -1]},
+            {"kind": "cmat", "method": "gw", "via": "factory", **base, "p": f(1.0 / 3.0), "w": [f(2.3), f(0.1), 0],
+             "sel": [1, 0], "argform": "readonly"},
+            {"kind": "cmat", "method": "vr", "via": "class", **base, "p": [f(0.1), f(0.9), "1/2"], "w": None,
+             "sel": [3, 1, 0], "argform": "readonly"},
+            {"kind": "cmat", "method": "yang", "via": "class", **base, "p": [f(0.3), "1/4", f(0.7)], "w": None,
+             "sel": [0, -2], "argform": "strided"},
+            {"kind": "cmat", "method": "vr", "via": "subclass", **base, "p": f(0.3), "w": None, "sel": None,
+             "argform": "np"},
+        ]
+        half = {"p": "1/2", "w": None}
+        out.append({"kind": "alias", **base, "grouped": False,
+                    "objs": [{"method": "vr", "via": "class", **half}, {"method": "mol", "via": "class", "p": None, "w": None}],
+                    "ops": [{"on": 0, "op": "select_taxa", "perm": [-1, 0]},
+                            {"on": 1, "op": "select_taxa", "perm": [-3, -2, -1]},
+                            {"on": 1, "op": "reorder_taxa", "perm": [-1, 0, -2, 1]},
+                            {"on": "gmat", "op": "reorder_taxa", "perm": [-4, 3, -2, 1]}],
+                    "late": {"method": "yang", "via": "factory", **half}})
+        # one object: re-ordered (numpy lays the result out in Fortran order), then every summary twice
+        out += [
+            {"kind": "edit", "seed": 8, "src": "mat", "cls": "mol", "mat": [[2, 1, 0], [1, 3, 1], [0, 1, 4]],
+             "taxa": ["c", "a", "b"], "taxa_grp": [1, 0, 1],
+             "edits": [{"op": "reorder", "perm": [-1, 0, 1], "how": "reorder_taxa"}, {"op": "read"},
+                       {"op": "sort", "how": "sort_taxa"}, {"op": "read"}]},
+            {"kind": "edit", "seed": 9, "src": "gmat", "method": "vr", "via": "class", **base, **half, "sel": None,
+             "edits": [{"op": "add_diag", "v": 1}, {"op": "reorder", "perm": [3, -3, 0, 2], "how": "reorder", "axis": 0},
+                       {"op": "read"}, {"op": "group", "how": "group_taxa"}, {"op": "read"}]},
+        ]
+        # Fortran-ordered and strided inputs: singular, nearly singular, well conditioned
+        for mat, lay in (([[1, 1], [1, 1]], "F"), ([[2, 1], [1, 2]], "F"), ([[4, 2, 2], [2, 1, 1], [2, 1, 3]], "F"),
+                         ([[0, 0], [0, 0]], "F"), ([[3, 1, 0], [1, 3, 1], [0, 1, 3]], "strided")):
+            out.append({"kind": "summ", "cls": "vr", "mat": mat, "taxa": None, "extras": True, "layout": lay})
+        # inverse / minimum inbreeding past the size of the exact oracle (17, 33, 65, 130 taxa)
+        for nn, sd in ((17, 1), (33, 2), (65, 3), (96, 4)):
+            out.append({"kind": "biginv", "n": nn, "seed": sd, "cls": "gw", "layout": "F" if nn == 33 else None})
+        return out
 
     def _round3_corpus(self):
         """round 3: sizes past 1024 / 4096 markers and 127 / 1024 taxa, magnitudes near tolerances, rarely used
@@ -469,6 +754,8 @@ class C13(Prop):
               Fraction(1, 2 ** 40), 1 - Fraction(1, 2 ** 40)]
     TINY_W = [Fraction(1, 2 ** 30), Fraction(1, 2 ** 17), Fraction(2 ** 20), Fraction(0), Fraction(1), Fraction(1, 2 ** 40)]
 
+    FULL53 = (0.1, 0.3, 1.0 / 3.0, 0.7, 0.9)
+
     @staticmethod
     def _dyadic(rng, lo_open=False):
         den = rng.choice([2, 4, 8, 16])
@@ -518,6 +805,17 @@ class C13(Prop):
         tot = sum(r[k] for r in X)
         return 0 < tot < ploidy * len(X)
 
+    @staticmethod
+    def _end_relative(rng, idx, n, prob=0.35):
+        """some of the indices written relative to the end (numpy: -1 is the last taxon)"""
+        if rng.random() >= prob:
+            return idx
+        out = [i - n if rng.random() < 0.5 else i for i in idx]
+        if all(i >= 0 for i in out) and out:
+            k = rng.randrange(len(out))
+            out[k] -= n
+        return out
+
     def _cmat_case(self, rng):
         method = rng.choice(METHODS)
         ploidy = rng.choice([1, 2, 2])
@@ -555,6 +853,14 @@ class C13(Prop):
             wk = [rng.choice(self.TINY_W) for _ in range(m)]
             if rng.random() < 0.25:
                 wk = rng.choice(self.TINY_W[:3])
+        # values that need all 53 bits of the double (0.1, 0.3, 1/3, 0.7: a detour through float32 changes them),
+        # on small panels only (the exact rational oracle carries the full denominators)
+        if m <= 8 and method != "mol" and rng.random() < 0.12:
+            pk = [Fraction(rng.choice(self.FULL53)) for _ in range(m)] if rng.random() < 0.6 else \
+                Fraction(rng.choice(self.FULL53))
+        if m <= 8 and method == "gw" and rng.random() < 0.2:
+            wk = [Fraction(rng.choice(self.FULL53 + (2.3, 17.1))) for _ in range(m)] if rng.random() < 0.5 else \
+                Fraction(rng.choice(self.FULL53 + (2.3, 17.1)))
         geno, X = self._geno(rng, ploidy, phased, n, m, all_poly=(method == "yang" and pk is None))
         if pk is None and method in ("vr", "yang"):
             polys = [self._polymorphic(X, ploidy, k) for k in range(m)]
@@ -584,7 +890,7 @@ class C13(Prop):
             rng.shuffle(idx)
             if rng.random() < 0.5 and n > 1:
                 idx = idx[:rng.randint(1, n - 1)]
-            sel = idx
+            sel = self._end_relative(rng, idx, n)
         # a grouped source (`group_taxa()` sorts by group, then name, and fills the four metadata arrays)
         grouped = grp is not None and rng.random() < 0.45
         case = {"kind": "cmat", "method": method, "via": rng.choice(["class", "class", "factory", "factory", "subclass"]),
@@ -598,10 +904,14 @@ class C13(Prop):
         if rng.random() < 0.3:
             case["accforms"] = True
         r = rng.random()
-        if r < 0.25:
+        if r < 0.2:
             case["argform"] = "int"
-        elif r < 0.4:
+        elif r < 0.32:
             case["argform"] = "np"
+        elif r < 0.44:
+            case["argform"] = "strided"
+        elif r < 0.56:
+            case["argform"] = "readonly"
         return case
 
     def _bigm_case(self, rng, method=None, m=None, ploidy=None, n=None):
@@ -663,6 +973,7 @@ class C13(Prop):
             rng.shuffle(sel)
             if rng.random() < 0.4 and n > 1:
                 sel = sel[:n - 1]
+            sel = self._end_relative(rng, sel, n)
         return {"kind": "cmat", "method": method, "via": rng.choice(["class", "factory"]), "ploidy": ploidy,
                 "phased": phased, "n": n, "m": m, "geno": geno,
                 "taxa": [f"L{i}" for i in range(n)] if rng.random() < 0.7 else None,
@@ -687,7 +998,8 @@ class C13(Prop):
             perm = list(range(n))
             while n >= 2 and perm == list(range(n)):
                 rng.shuffle(perm)
-            e = {"op": "reorder", "perm": perm, "how": rng.choice(["reorder_taxa", "reorder_taxa", "reorder"])}
+            e = {"op": "reorder", "perm": self._end_relative(rng, perm, n),
+                 "how": rng.choice(["reorder_taxa", "reorder_taxa", "reorder"])}
             if e["how"] == "reorder":
                 e["axis"] = rng.choice([-1, 0, 1, -2])
             return e
@@ -701,7 +1013,13 @@ class C13(Prop):
             B = [[rng.randint(-2, 2) for _ in range(n + 1)] for _ in range(n)]
             A = [[Fraction(sum(a * b for a, b in zip(B[i], B[j]))) + (Fraction(rng.randint(2, 7), 2) if i == j else 0)
                   for j in range(n)] for i in range(n)]
-            return {"op": "assign", "mat": canon.enc(A)}
+            e = {"op": "assign", "mat": canon.enc(A)}
+            lay = rng.choice([None, "F", "strided"])
+            if lay is not None:
+                e["layout"] = lay
+            return e
+        if r < 0.8:
+            return {"op": "read"}
         return {"op": "mutate_view", "what": rng.choice(self.VIEWS)}
 
     def _edit_case(self, rng):
@@ -719,6 +1037,9 @@ class C13(Prop):
             names = [f"E{i}" for i in range(n)]
             rng.shuffle(names)
             labelled = rng.random() < 0.6
+            lay = rng.choice([None, None, "F", "strided"])
+            if lay is not None:
+                case["layout"] = lay
             case.update({"src": "mat", "cls": rng.choice(METHODS), "mat": canon.enc(A),
                          "taxa": names if labelled else None,
                          "taxa_grp": [rng.randint(0, 2) for _ in range(n)] if labelled and rng.random() < 0.7 else None})
@@ -790,13 +1111,21 @@ class C13(Prop):
         k = rng.choice([2, 2, 3])
         objs = [spec(rng.choice(["vr", "yang", "vr", "yang", "mol", "gw"])) for _ in range(k)]
         ops = []
+        resorted = False                                   # the local copy X no longer tracks the row order
         for _ in range(rng.choice([1, 2, 2, 3])):
             on = rng.choice(list(range(k)) + ["gmat"]) if rng.random() < 0.8 else "gmat"
             perm = list(range(n))
             while perm == list(range(n)):
                 rng.shuffle(perm)
             if on == "gmat":
-                if rng.random() < 0.5:
+                if rng.random() < 0.25:
+                    # the genotype matrix sorted / grouped in place: whatever order results (C03's subject), a
+                    # matrix computed afterwards must be that of the data and labels then held
+                    ops.append({"on": "gmat", "op": rng.choice(["sort_taxa", "group_taxa"])})
+                    resorted = True
+                    continue
+                if resorted or rng.random() < 0.5:
+                    perm = self._end_relative(rng, perm, n)
                     ops.append({"on": "gmat", "op": "reorder_taxa", "perm": perm})
                     X = [X[i] for i in perm]
                 else:
@@ -807,7 +1136,7 @@ class C13(Prop):
                 continue
             r = rng.random()
             if r < 0.35:
-                op = {"on": on, "op": rng.choice(["reorder_taxa", "reorder"]), "perm": perm}
+                op = {"on": on, "op": rng.choice(["reorder_taxa", "reorder"]), "perm": self._end_relative(rng, perm, n)}
                 if op["op"] == "reorder":
                     op["axis"] = rng.choice([-1, 0, 1])
             elif r < 0.6:
@@ -815,7 +1144,7 @@ class C13(Prop):
                 if not op["op"].endswith("_taxa"):
                     op["axis"] = rng.choice([-1, 0, 1])
             elif r < 0.8:
-                sub = perm[:rng.randint(1, n)]
+                sub = self._end_relative(rng, perm[:rng.randint(1, n)], n, prob=0.5)
                 op = {"on": on, "op": "select_taxa", "perm": sub}
             else:
                 i, j = rng.sample(range(n), 2)
@@ -839,7 +1168,7 @@ class C13(Prop):
                                        [self._dyadic(rng, lo_open=True) for _ in range(m)])
         if method == "gw" and rng.random() < 0.6:
             wk = [rng.choice([1, 2, Fraction(1, 2)]) for _ in range(m)]
-        sel = rng.sample(range(n), 5)
+        sel = self._end_relative(rng, rng.sample(range(n), 5), n)
         # a common allele: the column totals pass 127 and 255
         return {"kind": "bign", "method": method, "via": rng.choice(["class", "factory"]), "ploidy": ploidy,
                 "phased": rng.random() < 0.5, "n": n, "m": m, "seed": rng.randint(0, 2 ** 31 - 1),
@@ -983,8 +1312,11 @@ class C13(Prop):
                 out.append(self._edit_case(rng))
             elif r < 0.91:
                 out.append(self._alias_case(rng))
-            elif r < 0.925:
+            elif r < 0.922:
                 out.append(self._bign_case(rng))
+            elif r < 0.934:
+                out.append({"kind": "biginv", "n": rng.choice([17, 24, 33, 40, 65, 96]), "seed": rng.randint(0, 2 ** 31 - 1),
+                            "cls": rng.choice(METHODS), "layout": rng.choice([None, None, "F", "strided"])})
             else:
                 out.append(self._reject_case(rng))
         return out
@@ -1104,7 +1436,37 @@ class C13(Prop):
         out["kin"] = canon.enc(c.mat_asformat("kinship"))
         return out
 
+    # ---- crash isolation: the implementation runs in a forked child (one per batch of cases)
+    _iso = None
+
+    @staticmethod
+    def _fingerprint():
+        """identity of every attribute of the classes under test: changes when an in-memory mutant is applied"""
+        M = _mods()
+        seen, out = set(), []
+        roots = list(M["cls"].values()) + list(M["fcty"].values()) + [M["PG"], M["UG"]]
+        for r in roots:
+            for cls in r.__mro__:
+                if cls in seen or not cls.__module__.startswith("pybrops"):
+                    continue
+                seen.add(cls)
+                out.append(tuple(id(v) for v in cls.__dict__.values()))
+        return tuple(out)
+
     def run_impl(self, case):
+        import os
+        if os.environ.get("VERIF_C13_NOFORK") or not hasattr(os, "fork"):
+            return self._run_impl_here(case)
+        _mods()                                      # import in the parent: the child inherits the loaded package
+        if self._iso is None:
+            C13._iso = _Isolated(self._run_impl_here, self._fingerprint)
+        return self._iso.call(case)
+
+    def _end_batch(self):
+        if self._iso is not None:
+            self._iso.end_batch()
+
+    def _run_impl_here(self, case):
         M = _mods()
         k = case["kind"]
         if k == "summ":
@@ -1120,6 +1482,8 @@ class C13(Prop):
             return self._run_alias(M, case)
         if k == "bign":
             return self._run_bign(M, case)
+        if k == "biginv":
+            return self._run_biginv(M, case)
         if k == "reject":
             try:
                 gm = self._gmat(M, case)
@@ -1158,6 +1522,7 @@ class C13(Prop):
     def _run_edit(self, M, case):
         if case["src"] == "mat":
             mat = numpy.array([[_fl(v) for v in r] for r in case["mat"]], dtype="float64")
+            mat = _layout(mat, case.get("layout"), junk=-9.0)
             taxa = None if case["taxa"] is None else numpy.array(case["taxa"], dtype=object)
             grp = None if case.get("taxa_grp") is None else numpy.array(case["taxa_grp"], dtype="int64")
             c = M["cls"][case["cls"]](mat=mat, taxa=taxa, taxa_grp=grp)
@@ -1185,8 +1550,11 @@ class C13(Prop):
             elif op == "add_diag":
                 c.mat[numpy.diag_indices(n)] += _fl(e["v"])
                 info.append(None)
+            elif op == "read":                # nothing: the summaries are simply read once more
+                info.append(None)
             elif op == "assign":             # attribute re-assignment through the public setter
-                c.mat = numpy.array([[_fl(v) for v in r] for r in e["mat"]], dtype="float64")
+                c.mat = _layout(numpy.array([[_fl(v) for v in r] for r in e["mat"]], dtype="float64"),
+                                e.get("layout"), junk=-9.0)
                 info.append(None)
             elif op == "reorder":
                 perm = numpy.array(e["perm"], dtype="int64")
@@ -1423,6 +1791,54 @@ class C13(Prop):
                                      and list(b.taxa_grp) == list(a.taxa_grp))
         return out
 
+    # ---- inverse / minimum inbreeding of well-conditioned matrices larger than the exact oracle handles
+    @staticmethod
+    def _biginv_mat(case):
+        """symmetric, strictly diagonally dominant, dyadic entries: well conditioned for every size"""
+        rs = numpy.random.RandomState(case["seed"])
+        n = case["n"]
+        A = rs.randint(-8, 9, size=(n, n)).astype("float64") / 4.0
+        A = numpy.triu(A) + numpy.triu(A, 1).T
+        off = numpy.abs(A).sum(axis=1) - numpy.abs(numpy.diag(A))
+        A[numpy.diag_indices(n)] = off + rs.randint(1, 9, size=n) / 2.0
+        return A
+
+    def _run_biginv(self, M, case):
+        A = self._biginv_mat(case)
+        n = case["n"]
+        c = M["cls"][case["cls"]](mat=_layout(A.copy(), case.get("layout"), junk=-3.0))
+        out = {"dev": {}, "touched": []}
+        ones = numpy.ones(n)
+        for fmt, B in (("coancestry", A), ("kinship", A / 2.0)):
+            inv = numpy.asarray(c.inverse(format=fmt))
+            if not numpy.array_equal(c.mat, A):
+                out["touched"].append(f"inverse({fmt})")
+            mi = float(c.min_inbreeding(format=fmt))
+            if not numpy.array_equal(c.mat, A):
+                out["touched"].append(f"min_inbreeding({fmt})")
+            ok_shape = inv.shape == (n, n) and bool(numpy.isfinite(inv).all())
+            out["dev"][fmt] = {
+                "shape": ok_shape,
+                "resid": float(numpy.abs(B @ inv - numpy.eye(n)).max()) if ok_shape else None,
+                "resid_left": float(numpy.abs(inv @ B - numpy.eye(n)).max()) if ok_shape else None,
+                # 1/(1'G^-1 1) from an independent linear solve on the COANCESTRY matrix, halved for kinship
+                "min_inb": mi, "want": float((0.5 if fmt == "kinship" else 1.0) / numpy.linalg.solve(A, ones).sum())}
+        return out
+
+    @staticmethod
+    def _judge_biginv(case, obs):
+        bad = [f"object_modified_by_reading_it({t})" for t in obs["touched"]]
+        for fmt, d in obs["dev"].items():
+            if not d["shape"]:
+                bad.append(f"{fmt}.inverse.shape/finite")
+                continue
+            if d["resid"] > 1e-9 or d["resid_left"] > 1e-9:
+                bad.append(f"{fmt}.inverse(resid={max(d['resid'], d['resid_left']):.3g})")
+            if not math.isfinite(d["min_inb"]) or abs(d["min_inb"] - d["want"]) > 1e-9 * abs(d["want"]):
+                bad.append(f"{fmt}.min_inbreeding({d['min_inb']!r} vs {d['want']!r})")
+        return {"corr": not bad, "spec": not bad, "nontrivial": True,
+                "detail": f"biginv[n={case['n']} {case.get('layout')}] spec_failed={bad}"}
+
     # ------------------------------------------------------------------ model requests
     @staticmethod
     def _base_req(case, obs=None):
@@ -1452,9 +1868,46 @@ class C13(Prop):
                 "sort_taxa": "sort_taxa", "group": "group_taxa", "group_taxa": "group_taxa",
                 "select_taxa": "select_taxa"}
 
+    # ---- the driver is a pure function of the request: answers are memoised by request content, so the model /
+    # Spec evaluation of a case whose implementation output did not change (most cases under an in-memory
+    # mutant of the self-test, every re-evaluation while shrinking) is not repeated
+    _ANSWERS = {}
+    _PLANS = {}
+
+    @staticmethod
+    def _req_key(r):
+        import hashlib
+        import json
+        return hashlib.sha1(json.dumps(r, sort_keys=True, separators=(",", ":")).encode()).hexdigest()
+
     def requests(self, case, obs):
+        self._end_batch()                            # all implementation calls of the batch are done
+        full = self._requests_full(case, obs)
+        keys = [self._req_key(r) for r in full]
+        send = [k not in self._ANSWERS for k in keys]
+        self._PLANS[id(obs)] = (keys, send)
+        return [r for r, s_ in zip(full, send) if s_]
+
+    def _merge_answers(self, obs, answers):
+        plan = self._PLANS.pop(id(obs), None)
+        if plan is None:
+            return answers
+        keys, send = plan
+        it = iter(answers)
+        out = []
+        for k, s_ in zip(keys, send):
+            if s_:
+                a = next(it)
+                if isinstance(a, dict) and "err" not in a:
+                    self._ANSWERS[k] = a
+            else:
+                a = self._ANSWERS[k]
+            out.append(a)
+        return out
+
+    def _requests_full(self, case, obs):
         k = case["kind"]
-        if k == "bign":
+        if k in ("bign", "biginv"):
             return []
         if k == "summ":
             reqs = [{"op": "c13.summ", "mat": case["mat"]}]
@@ -1523,8 +1976,10 @@ class C13(Prop):
         """labels / metadata the genotype matrix must hold after the operations addressed to it
         (`reorder_taxa` with explicit indices only): computed from its first snapshot"""
         g = dict(obs["gsnaps"][0])
-        for op in case["ops"]:
-            if op["on"] == "gmat" and op["op"] == "reorder_taxa":
+        for t, op in enumerate(case["ops"]):
+            if op["on"] == "gmat" and op["op"] in ("sort_taxa", "group_taxa"):
+                g = dict(obs["gsnaps"][t + 1])          # the order the genotype matrix chose: read back
+            elif op["on"] == "gmat" and op["op"] == "reorder_taxa":
                 perm = op["perm"]
                 g = {"taxa": None if g["taxa"] is None else [g["taxa"][i] for i in perm],
                      "taxa_grp": None if g["taxa_grp"] is None else [g["taxa_grp"][i] for i in perm], "meta": None}
@@ -1636,6 +2091,11 @@ class C13(Prop):
             if tgt == "gmat" and op["op"] == "gset":
                 if (g1["taxa"], g1["taxa_grp"], g1["meta"]) != (g0["taxa"], g0["taxa_grp"], g0["meta"]):
                     bad.append(f"op{t}.gmat.labels_after_data_write")
+            elif tgt == "gmat" and op["op"] in ("sort_taxa", "group_taxa"):
+                gexp = dict(g1)
+                same_sets = sorted(map(str, g0["taxa"] or [])) == sorted(map(str, g1["taxa"] or []))
+                if not same_sets:
+                    bad.append(f"op{t}.gmat.{op['op']}")
             elif tgt == "gmat":
                 perm = op["perm"]
                 gexp = {"taxa": None if gexp["taxa"] is None else [gexp["taxa"][i] for i in perm],
@@ -1669,6 +2129,7 @@ class C13(Prop):
             model, spec = answers[2 * t]["ok"], answers[2 * t + 1]["ok"]
             bad += [f"step{t}.{b}" for b in self._cmp_summ(model, st)]
             failed += [f"step{t}.{f}" for f in spec["failed"]]
+            failed += [f"step{t}.object_modified_by_reading_it({x})" for x in st.get("touched", [])]
         # the edits themselves: the matrix / labels read back are the edited ones
         changed = False
         extra, nxt = {}, 2 * len(steps)          # position of the additional answer of edit t
@@ -1703,6 +2164,9 @@ class C13(Prop):
                 if after != before:
                     # an array handed out by a read-only method shares memory with the object
                     failed.append(f"edit{t}.object_changed_through_returned_array({e['what']})")
+            elif op == "read":
+                if after != before:
+                    failed.append(f"edit{t}.object_changed_by_reading_its_summaries")
             else:                                   # jitter: the model with the recorded oracle inputs
                 inf = obs["info"][t]
                 if inf["draws"] is not None:
@@ -1715,7 +2179,7 @@ class C13(Prop):
                     d = after[i][i] - before[i][i]
                     if d != 0 and lo * Fraction(999, 1000) <= d <= hi * Fraction(1001, 1000):
                         want[i][i] = after[i][i]
-            if want != after and op != "mutate_view":
+            if want != after and op not in ("mutate_view", "read"):
                 bad.append(f"edit{t}.matrix")
             if not labels_same:
                 failed.append(f"edit{t}.labels_changed_by_{op}")
@@ -1731,12 +2195,20 @@ class C13(Prop):
                           f"{[None if i is None else (i['ok'], i['answers']) for i in obs['info']]}"}
 
     def judge(self, case, obs, answers):
+        answers = self._merge_answers(obs, answers)
+        v = self._judge(case, obs, answers)
+        v["all_answers"] = answers                   # memoised answers included (the core only keeps the sent ones)
+        return v
+
+    def _judge(self, case, obs, answers):
         for a in answers:
             if "err" in a:
                 raise RuntimeError("driver error: " + a["err"])
         k = case["kind"]
         if k == "bign":
             return self._judge_bign(case, obs)
+        if k == "biginv":
+            return self._judge_biginv(case, obs)
         if k == "alias":
             return self._judge_alias(case, obs, answers)
         if k == "summ":
@@ -1799,7 +2271,7 @@ class C13(Prop):
     def signature(self, case, obs, verdict):
         sig = {"kind": case["kind"], "method": case.get("method", case.get("cls"))}
         failed = []
-        for a in verdict.get("answers", []) or []:
+        for a in verdict.get("all_answers", verdict.get("answers", [])) or []:
             if isinstance(a, dict) and isinstance(a.get("ok"), dict) and "failed" in a["ok"]:
                 failed += a["ok"]["failed"]
         sig["failed"] = ",".join(sorted(set(failed)))
@@ -1815,6 +2287,11 @@ class C13(Prop):
                     yield c
             return
         if k == "bign":
+            return
+        if k == "biginv":
+            for nn in (17, 24, 33, 65):
+                if nn < case["n"]:
+                    yield {**case, "n": nn}
             return
         if k == "alias":
             for t in range(len(case["ops"])):
@@ -1862,7 +2339,14 @@ class C13(Prop):
                     if case.get(key) is not None:
                         c[key] = [t for ii, t in enumerate(case[key]) if ii != i]
                 if case.get("sel") is not None:
-                    c["sel"] = [j - (1 if j > i else 0) for j in case["sel"] if j != i] or None
+                    def adj(j, i=i, n=n):
+                        a = j if j >= 0 else n + j           # the taxon meant
+                        if a == i:
+                            return None
+                        if j >= 0:
+                            return j - (1 if j > i else 0)
+                        return j if a > i else j + 1           # end-relative indices stay end-relative
+                    c["sel"] = [adj(j) for j in case["sel"] if adj(j) is not None] or None
                 yield c
         if m > 1:                                           # drop a marker
             for kk in range(m):
@@ -2348,8 +2832,108 @@ class C13(Prop):
             out *= 0.5                                           # a slice of the matrix is a view of it
             return out
 
+        # --- round 4: one mutant per new case kind / Spec clause
+        import os
+        import signal
+
+        def select_clips_matrix(self, indices, **kw):
+            mat = self._mat
+            for axis in self.square_taxa_axes:
+                mat = numpy.take(mat, indices, axis=axis, mode="clip")     # -1 is clipped to 0, labels are not
+            taxa = self._taxa if self._taxa is None else numpy.take(self._taxa, indices, axis=0)
+            grp = self._taxa_grp if self._taxa_grp is None else numpy.take(self._taxa_grp, indices, axis=0)
+            return self.__class__(mat=mat, taxa=taxa, taxa_grp=grp, **kw)
+
+        def reorder_clips_matrix(self, indices, **kw):
+            pos = numpy.maximum(numpy.asarray(indices), 0)
+            for axis in self.square_taxa_axes:
+                ix = tuple(pos if i == axis else slice(None) for i in range(self.mat_ndim))
+                self._mat = self._mat[ix]
+            if self._taxa is not None:
+                self._taxa = self._taxa[indices]
+            if self._taxa_grp is not None:
+                self._taxa_grp = self._taxa_grp[indices]
+            self._taxa_grp_name = self._taxa_grp_stix = self._taxa_grp_spix = self._taxa_grp_len = None
+
+        def gmat_select_wraps_twice(orig):
+            def f(self, indices, **kw):
+                idx = numpy.asarray(indices)
+                idx = numpy.where(idx < 0, idx + self.ntaxa - 1, idx)          # off by one from the end
+                return orig(self, idx, **kw)
+            return f
+
+        @contextlib.contextmanager
+        def gmat_select_end_relative_off_by_one():
+            with patch(UG, "select_taxa", gmat_select_wraps_twice(UG.__dict__["select_taxa"])), \
+                    patch(PG, "select_taxa", gmat_select_wraps_twice(PG.__dict__["select_taxa"])):
+                yield
+
+        def min_inb_in_place(which):
+            def f(self, format="coancestry"):
+                fmt = format.lower()
+                A = self._mat
+                if which == "F" and A.flags.f_contiguous and not A.flags.c_contiguous:
+                    A[...] = numpy.linalg.inv(A)                              # "overwrite_a" on Fortran-ordered input
+                    Ginv = A
+                elif which == "kin" and fmt == "kinship":
+                    A *= 0.5                                                   # works on the stored matrix ...
+                    Ginv = numpy.linalg.inv(A)
+                    out = 1.0 / Ginv.sum()                                     # ... which stays halved
+                    return out
+                elif which == "crash" and A.flags.f_contiguous and not A.flags.c_contiguous and \
+                        abs(numpy.linalg.det(A)) < 1e-12:
+                    os.kill(os.getpid(), signal.SIGSEGV)                       # a native routine taking the interpreter down
+                    Ginv = A
+                else:
+                    Ginv = numpy.linalg.inv(A)
+                out = 1.0 / Ginv.sum()
+                return 0.5 * out if fmt == "kinship" else out
+            return f
+
+        def max_format_case_sensitive(self, format="coancestry", axis=None):
+            out = self._mat.max(axis=axis)
+            if format == "kinship":                                           # no .lower()
+                out = out * 0.5
+            return out
+
+        def mean_explicit_dtype_float32(self, format="coancestry", axis=None, dtype=None):
+            out = self._mat.mean(axis=axis, dtype=None if dtype is None else numpy.float32)
+            if format.lower() == "kinship":
+                out = out * 0.5
+            return out
+
+        def inverse_float32_when_large(self, format="coancestry"):
+            A = self._mat if format.lower() == "coancestry" else 0.5 * self._mat
+            if A.shape[0] > 64:
+                return numpy.linalg.inv(A.astype("float32")).astype("float64")   # "saves memory"
+            return numpy.linalg.inv(A)
+
+        def min_inb_pinv_when_large(self, format="coancestry"):
+            A = self._mat
+            if A.shape[0] > 16:
+                out = 1.0 / numpy.linalg.inv(A + 1e-6 * numpy.eye(A.shape[0])).sum()   # "regularised"
+            else:
+                out = 1.0 / numpy.linalg.inv(A).sum()
+            return 0.5 * out if format.lower() == "kinship" else out
+
+        def mat_asformat_case(self, format):
+            if format == "kinship" or format == "Kinship":
+                return 0.5 * self._mat
+            return self._mat.copy()                                           # "KINSHIP" falls through to coancestry
+
         cm = classmethod
         return [
+            ("r4_select_taxa_clips_negative_indices_of_the_matrix", lambda: patch(SqTaxa, "select_taxa", select_clips_matrix)),
+            ("r4_reorder_taxa_clips_negative_indices_of_the_matrix", lambda: patch(SqTaxa, "reorder_taxa", reorder_clips_matrix)),
+            ("r4_gmat_select_taxa_end_relative_off_by_one", gmat_select_end_relative_off_by_one),
+            ("r4_min_inbreeding_inverts_fortran_ordered_matrix_in_place", lambda: patch(Base, "min_inbreeding", min_inb_in_place("F"))),
+            ("r4_min_inbreeding_kinship_halves_the_stored_matrix", lambda: patch(Base, "min_inbreeding", min_inb_in_place("kin"))),
+            ("r4_min_inbreeding_kills_the_interpreter_on_singular_fortran_input", lambda: patch(Base, "min_inbreeding", min_inb_in_place("crash"))),
+            ("r4_max_format_string_case_sensitive", lambda: patch(Base, "max", max_format_case_sensitive)),
+            ("r4_mat_asformat_upper_case_falls_through", lambda: patch(Base, "mat_asformat", mat_asformat_case)),
+            ("r4_mean_explicit_dtype_is_float32", lambda: patch(Base, "mean", mean_explicit_dtype_float32)),
+            ("r4_inverse_float32_past_64_taxa", lambda: patch(Base, "inverse", inverse_float32_when_large)),
+            ("r4_min_inbreeding_regularised_past_16_taxa", lambda: patch(Base, "min_inbreeding", min_inb_pinv_when_large)),
             ("r3_yang_sample_frequencies_memoised_per_source_id", lambda: patch(Yang, "from_gmat", cm(yang_afreq_memo))),
             ("r3_vr_scales_the_callers_frequency_array", lambda: patch(VR, "from_gmat", cm(vr_scales_argument))),
             ("r3_kinship_accessor_halves_a_view_in_place", lambda: patch(Base, "kinship", kinship_in_place)),
